@@ -4,8 +4,11 @@ import glob, json, os
 root = os.path.dirname(os.path.dirname(os.path.abspath(__file__)))
 base = json.load(open(os.path.join(root, "manifest.d", "base.json")))
 checks, na = [], []
+ready = set(open(os.path.join(root, "manifest.d", "ready.txt")).read().split())
 for f in sorted(glob.glob(os.path.join(root, "manifest.d", "C*.json"))):
     d = json.load(open(f))
+    if "not_applicable" not in d and d["property_id"] not in ready:
+        continue
     if "not_applicable" in d:
         na.append(d["not_applicable"])
     else:
